@@ -101,6 +101,16 @@ Proof.
       * intros E. injection E as <- <-. apply (READ r t); [exact E0|cbn [length]; lia].
 Qed.
 
+(* the handler-side event log is not touched by the transport *)
+Lemma t_poll_read_events L w p w' : t_poll_read L w = (p, w') -> events w' = events w.
+Proof.
+  unfold t_poll_read. intros E.
+  repeat match type of E with
+  | (if ?c then _ else _) = _ => destruct c
+  | (match ?x with _ => _ end) = _ => destruct x
+  end; injection E as <- <-; reflexivity.
+Qed.
+
 Lemma gated_stop w : gated w -> gated (w_stop w).
 Proof.
   intros G L HL. specialize (G L HL). unfold t_poll_read in *. destruct (L =? 0); [discriminate G|].
@@ -306,6 +316,7 @@ Record acct (new : bytes) (r : rstate) (w : world) (dl : bytes) (r' : rstate) (w
   ac_req : sreq (rsp r') = sreq (rsp r);
   ac_rd : exists rd, remaining w = rd ++ remaining w';
   ac_ws : suffix (wscript w') (wscript w);
+  ac_ev : events w' = events w;
   ac_K : K (abs (rsp r)) (new ++ remaining w) = dl ++ K (abs (rsp r')) (remaining w');
   ac_R : exists fl, wlog w' = wlog w ++ fl /\
                     R maxc (abs (rsp r)) (new ++ remaining w) = fl ++ R maxc (abs (rsp r')) (remaining w');
@@ -335,15 +346,17 @@ Qed.
 (* composition: the first operation left [b] read-but-unparsed (b = [] between handler operations) *)
 Lemma acct_trans new r w d1 r1 w1 b w1' d2 r2 w2 :
   acct new r w d1 r1 w1 -> remaining w1 = b ++ remaining w1' -> wlog w1' = wlog w1 -> wscript w1' = wscript w1 ->
+  events w1' = events w1 ->
   acct b r1 w1' d2 r2 w2 -> acct new r w (d1 ++ d2) r2 w2.
 Proof.
-  intros A Hb Hl Hs B. constructor.
+  intros A Hb Hl Hs He B. constructor.
   - apply (ac_inv _ _ _ _ _ _ B).
   - rewrite (ac_stream _ _ _ _ _ _ B). apply (ac_stream _ _ _ _ _ _ A).
   - rewrite (ac_req _ _ _ _ _ _ B). apply (ac_req _ _ _ _ _ _ A).
   - destruct (ac_rd _ _ _ _ _ _ A) as [rd1 E1]. destruct (ac_rd _ _ _ _ _ _ B) as [rd2 E2].
     exists (rd1 ++ b ++ rd2). rewrite E1, Hb, E2, <- !app_assoc. reflexivity.
   - eapply suffix_trans; [apply (ac_ws _ _ _ _ _ _ B)|]. rewrite Hs. apply (ac_ws _ _ _ _ _ _ A).
+  - rewrite (ac_ev _ _ _ _ _ _ B), He. apply (ac_ev _ _ _ _ _ _ A).
   - rewrite (ac_K _ _ _ _ _ _ A), Hb, (ac_K _ _ _ _ _ _ B), app_assoc. reflexivity.
   - destruct (ac_R _ _ _ _ _ _ A) as (f1 & L1 & R1). destruct (ac_R _ _ _ _ _ _ B) as (f2 & L2 & R2).
     exists (f1 ++ f2). split; [rewrite L2, Hl, L1, app_assoc; reflexivity|].
@@ -359,11 +372,13 @@ Proof. intros A B. apply (acct_trans [] r w d1 r1 w1 [] w1 d2 r2 w2 A); try refl
 
 (* the world may change in ways that do not concern the transport (events, poll counter, shutdown flag) *)
 Lemma acct_world new r w dl r' w' w'' : acct new r w dl r' w' ->
-  remaining w'' = remaining w' -> wlog w'' = wlog w' -> wscript w'' = wscript w' -> acct new r w dl r' w''.
+  remaining w'' = remaining w' -> wlog w'' = wlog w' -> wscript w'' = wscript w' -> events w'' = events w' ->
+  acct new r w dl r' w''.
 Proof.
-  intros A H1 H2 H3. constructor; try apply A.
+  intros A H1 H2 H3 H4. constructor; try apply A.
   - rewrite H1. apply (ac_rd _ _ _ _ _ _ A).
   - rewrite H3. apply (ac_ws _ _ _ _ _ _ A).
+  - rewrite H4. apply (ac_ev _ _ _ _ _ _ A).
   - rewrite H1. apply (ac_K _ _ _ _ _ _ A).
   - rewrite H1, H2. apply (ac_R _ _ _ _ _ _ A).
   - intros sg Hls. rewrite H1. apply (ac_F _ _ _ _ _ _ A sg Hls).
@@ -410,6 +425,7 @@ Proof.
         + apply SO.
         + exists []. reflexivity.
         + apply suffix_refl.
+        + reflexivity.
         + apply (so_K _ _ _ _ _ SO).
         + exists []. rewrite app_nil_r. split; [reflexivity|apply (so_R _ _ _ _ _ SO)].
         + intros sg Hls. apply (so_F _ _ _ _ _ SO sg _ Hls).
@@ -432,6 +448,7 @@ Proof.
       + apply SO.
       + exists []. reflexivity.
       + apply suffix_refl.
+      + reflexivity.
       + apply (so_K _ _ _ _ _ SO).
       + exists []. rewrite app_nil_r. split; [reflexivity|apply (so_R _ _ _ _ _ SO)].
       + intros sg Hls. apply (so_F _ _ _ _ _ SO sg _ Hls).
@@ -476,14 +493,16 @@ Proof.
   { intros sg u Hls. rewrite (so_F _ _ _ _ _ SO sg u Hls), P5.
     change (F (Some sg) (set_out (abs (compress p1)) (output_buffer (rsp r3))) u) with (F (Some sg) (abs (compress p1)) u).
     rewrite CA. reflexivity. }
+  assert (Pev : events w0 = events w) by apply P2.
   assert (PRE : forall w1, remaining w1 = remaining w0 -> wlog w1 = wlog w0 -> wscript w1 = wscript w0 ->
-            acct new r w [] r3 w1).
-  { intros w1 Q1 Q2 Q3. constructor.
+            events w1 = events w0 -> acct new r w [] r3 w1).
+  { intros w1 Q1 Q2 Q3 Q4. constructor.
     - exact P10.
     - rewrite P8. apply SO.
     - rewrite P9. apply SO.
     - exists []. rewrite Q1, Prem. reflexivity.
     - rewrite Q3. exact P3.
+    - rewrite Q4. exact Pev.
     - rewrite Q1, Prem. apply PK.
     - exists fl. split; [rewrite Q2; exact P1|]. rewrite Q1, Prem. apply PR.
     - intros sg Hls. rewrite Q1, Prem. apply PF. exact Hls. }
@@ -493,10 +512,11 @@ Proof.
   - (* output flushed: read from the transport *)
     destruct (t_poll_read (sinput_space (rsp r3)) w0) as [pr w1] eqn:ER.
     destruct (t_poll_read_rem _ _ _ _ ER) as (T1 & T2 & T3 & T4).
+    pose proof (t_poll_read_events _ _ _ _ ER) as Tev.
     destruct pr as [[b|k]| |].
     + destruct T4 as (Tr & Tl & Tnil). destruct b as [|x b'].
       * injection E as <- <- <-. exists []. split; [|split; [|apply Hwr3]].
-        -- apply PRE; [|exact T1|exact T2]. rewrite Tr. reflexivity.
+        -- apply PRE; [|exact T1|exact T2|exact Tev]. rewrite Tr. reflexivity.
         -- cbn [il_case]. right. left. split; [reflexivity|]. split; [reflexivity|]. split; [exact P12|].
            destruct (Tnil eq_refl) as [H0|H0]; [right; exact H0|left].
            rewrite Tr in H0. exact H0.
@@ -508,7 +528,7 @@ Proof.
         assert (Hd3 : dest <> None -> stream_buffer (rsp r3) = []) by (intros Hx; rewrite Hsb3; apply Hd; exact Hx).
         destruct (IH dest (x :: b') r3 w1 p r' w' P10 (proj2 Hb) (proj1 Hb) Tl Hd3 Hf' E) as (dl & A & C & W).
         exists dl. split; [|split].
-        -- change dl with ([] ++ dl). eapply acct_trans; [apply (PRE w0); reflexivity|exact Tr|exact T1|exact T2|exact A].
+        -- change dl with ([] ++ dl). eapply acct_trans; [apply (PRE w0); reflexivity|exact Tr|exact T1|exact T2|exact Tev|exact A].
         -- unfold il_case in *. destruct p as [[[n b]|k]| |]; try rewrite Hsb3 in C; exact C.
         -- rewrite W, P11. f_equal. f_equal. apply is_final_stream_eq; [rewrite P9; apply SO|rewrite P8; apply SO].
     + destruct T4 as [Tr Tk]. injection E as <- <- <-. exists []. split; [|split; [|apply Hwr3]].
@@ -554,6 +574,7 @@ Proof.
     + exact P9.
     + exists []. rewrite Prem. reflexivity.
     + exact P3.
+    + apply P2.
     + rewrite Prem, P5, K_set_out. reflexivity.
     + exists fl. split; [exact P1|]. rewrite Prem, P5. apply R_split. exact P4.
     + intros sg _. rewrite Prem, P5. reflexivity.
@@ -659,6 +680,7 @@ Proof.
         -- reflexivity.
         -- exists []. reflexivity.
         -- apply suffix_refl.
+        -- reflexivity.
         -- rewrite CA. exact CK.
         -- exists []. rewrite app_nil_r. split; [reflexivity|]. rewrite CA, CR. reflexivity.
         -- intros sg _. rewrite CA, CF. reflexivity.
@@ -698,12 +720,12 @@ Proof.
   destruct (poll_input_reads (io_fuel w (len (buffer (rsp r)))) dest r w p r1 w1 Hinv Hrem
               ltac:(rewrite io_fuel_remaining; lia) EP) as (dl & A & C & W).
   assert (RETRY : forall w1', remaining w1' = remaining w1 -> wlog w1' = wlog w1 -> wscript w1' = wscript w1 ->
-            dl = [] -> stream_buffer (rsp r) = [] -> stream_buffer (rsp r1) = [] -> is_inl p = false ->
+            events w1' = events w1 -> dl = [] -> stream_buffer (rsp r) = [] -> stream_buffer (rsp r1) = [] -> is_inl p = false ->
             ai_post dest r w (await_input maxc f dest r1 w1')).
-  { intros w1' Q1 Q2 Q3 -> S0 S1 Hp.
+  { intros w1' Q1 Q2 Q3 Q4 -> S0 S1 Hp.
     assert (Esb : stream_buffer (rsp r1) = stream_buffer (rsp r)) by (rewrite S0, S1; reflexivity).
     assert (Ewr : rwriteable r1 = rwriteable r) by (rewrite W, Hp, andb_false_r, orb_false_r; reflexivity).
-    pose proof (acct_world _ _ _ _ _ _ w1' A Q1 Q2 Q3) as A'.
+    pose proof (acct_world _ _ _ _ _ _ w1' A Q1 Q2 Q3 Q4) as A'.
     specialize (IH dest r1 w1' (ac_inv _ _ _ _ _ _ A) ltac:(rewrite Q1; apply (acct_bytes_ok _ _ _ _ _ _ A Hrem))).
     destruct (await_input maxc f dest r1 w1') as [[res r2] w2|o w2]; cbn [ai_post] in *.
     - destruct IH as (dl2 & A2 & C2 & W2). exists dl2.
@@ -1202,6 +1224,7 @@ Proof.
   - reflexivity.
   - exists []. reflexivity.
   - apply suffix_refl.
+  - reflexivity.
   - rewrite CA. exact CK.
   - exists []. rewrite app_nil_r. split; [reflexivity|]. rewrite CA, CR. reflexivity.
   - intros sg _. rewrite CA, CF. reflexivity.
